@@ -167,3 +167,49 @@ def reconfig_slice(ctx, tier, rng, run_one, quick_n=500, thorough_n=12000, per=2
         for e in pick_entries(rng, ents, per):
             run_one(sc, e)
         ctx.inc("reconfigured_scenarios")
+
+
+def function_threads(ctx, viol, label, make, calls, after=(), limit=60, bound=2, counter="function_thread_schedules"):
+    """A callable object that is meant to be a function of its argument (a strategy, a classifier), shared by threads.
+    `make()` builds a FRESH object; `calls` = one argument per thread; each thread calls the shared object once under the controlled
+    scheduler (pre-emption before every source line of the package), then `after` arguments are evaluated sequentially on the same
+    object.  Every answer must equal the answer a fresh object gives to that argument alone."""
+    from .. import sched
+
+    def alone(arg):
+        return make()(arg)
+
+    try:
+        want = [alone(a) for a in calls]
+        want_after = [alone(a) for a in after]
+    except BaseException as x:  # noqa: BLE001
+        viol("raised-when-called-alone:" + type(x).__name__, f"{label}: {x!r}", {"function_threads": label})
+        return False
+    progs = [[(lambda a: (lambda f: f(a)))(a)] for a in calls]
+    prefix, n = [], 0
+    while True:
+        r = sched.run_schedule(make, progs, prefix=prefix)
+        s_ = r["sched"]
+        n += 1
+        key = [x[1] for x in s_.trace]
+        ctx.cnt[counter] += 1
+        ctx.cnt[counter.replace("schedules", "line_events")] += s_.line_events
+        if not r["completed"]:
+            ctx.inconclusive_because(f"scheduler watchdog fired for {label}")
+            return False
+        got = [x[0] if x else None for x in r["results"]]
+        later = None
+        if not r["errors"]:
+            try:
+                later = [r["obj"](a) for a in after]
+            except BaseException as x:  # noqa: BLE001
+                later = repr(x)
+        if r["errors"] or got != want or later != want_after:
+            viol("answer-depends-on-another-thread", f"{label}: alone -> {want} (then {want_after}); called by {len(calls)} threads at once -> {got}, afterwards -> {later}; errors {r['errors']}; schedule {key}",
+                 {"function_threads": label, "schedule": key})
+            return False
+        nxt = sched.next_prefix(s_.trace, bound)
+        if nxt is None or n >= limit:
+            break
+        prefix = nxt
+    return True
